@@ -362,6 +362,13 @@ func casesText(c *caseCtx) {
 		ep := "rnbqkbnr/pppp1ppp/8/8/4pP2/8/PPPPP1PP/RNBQKBNR b KQkq f" + string(r) + " 0 2"
 		c.emit("decode %s => %s", codes(ep), decodeObs(ep))
 	}
+	// every square as the en passant field: whatever is accepted must survive the round trip
+	for _, skel := range []string{"4k3/8/8/8/8/3P4/8/4K3 w - %s 0 1", "4k3/8/3p4/8/8/8/8/4K3 b - %s 0 1", "4k3/8/8/3pP3/8/8/8/4K3 w - %s 0 3"} {
+		for sq := board.ZeroSquare; sq < board.NumSquares; sq++ {
+			f := fmt.Sprintf(skel, sq.String())
+			c.emit("decode %s => %s", codes(f), decodeObs(f))
+		}
+	}
 	// moves and squares
 	letters := []rune("abcdefghABCDEFGHijxz0123456789qrbnkpQRBNKP -+éｅ")
 	for i := 0; i < c.scale(3000, 60000); i++ {
